@@ -365,8 +365,14 @@ def case_task(wid, seed, params):
             continue
         ccname = ccs[(wid + ci) % len(ccs)]
         opts = tuple(meta.get('w2c2_options', params.get('w2c2_options', ())))
+        # every third case is written in a non-canonical but spec-equivalent encoding (regrouped locals with empty entries, a few
+        # padded LEB128 fields, flag-2 data segments, custom sections): the behaviour under test must not depend on it
+        kn = None
+        if ci % 3 == 2 and params.get('encoding_knobs', True):
+            kn = wasm.Knobs(Chooser(cseed ^ 0x5bd1e995), pad_prob_pct=3, customs=True, data_flag2=True, local_groups=True)
+            res['extra']['non_canonical_encodings'] += 1
         try:
-            st, info = run_case(m, script, ccname, opts, ninst=meta.get('ninst', 2))
+            st, info = run_case(m, script, ccname, opts, ninst=meta.get('ninst', 2), knobs=kn)
         except cexec.InfraError as e:
             res['infra'].append(str(e))
             continue
@@ -392,12 +398,13 @@ def case_task(wid, seed, params):
             sig = case_signature(st, info)
             log = list(ch.log)
 
-            def still(choices, _sig=sig, _cc=ccname):
+            def still(choices, _sig=sig, _cc=ccname, _kn=kn is not None):
                 c2 = Chooser(replay=choices)
                 m2, s2, meta2 = maker(c2, params)
                 wasm.validate(m2)
+                kn2 = wasm.Knobs(Chooser(cseed ^ 0x5bd1e995), pad_prob_pct=3, customs=True, data_flag2=True, local_groups=True) if _kn else None
                 st2, info2 = run_case(m2, s2, _cc, tuple(meta2.get('w2c2_options', params.get('w2c2_options', ()))),
-                                      ninst=meta2.get('ninst', 2))
+                                      ninst=meta2.get('ninst', 2), knobs=kn2)
                 return st2 != 'ok' and case_signature(st2, info2) == _sig
             best = log
             try:
@@ -409,7 +416,8 @@ def case_task(wid, seed, params):
             c2 = Chooser(replay=best)
             m2, s2, meta2 = maker(c2, params)
             opts2 = tuple(meta2.get('w2c2_options', params.get('w2c2_options', ())))
-            st2, info2 = run_case(m2, s2, ccname, opts2, ninst=meta2.get('ninst', 2))
+            kn2 = wasm.Knobs(Chooser(cseed ^ 0x5bd1e995), pad_prob_pct=3, customs=True, data_flag2=True, local_groups=True) if kn is not None else None
+            st2, info2 = run_case(m2, s2, ccname, opts2, ninst=meta2.get('ninst', 2), knobs=kn2)
             if st2 == 'ok':
                 m2, s2, st2, info2, opts2 = m, script, st, info, opts
             if meta2.get('independent'):
